@@ -12,6 +12,7 @@ def run(cx):
     E.column_agreement(cx)
     E.stats_table(cx)
     E.histograms_table(cx)
+    E.about_and_cli(cx)
     from . import figure_rules
     figure_rules.run_all(cx)
     # arguments shared by all rows are not rebound in the row loops (figure paths are built from them per row)
